@@ -14,4 +14,3 @@ def check(ctx, rep):
         return
     A.rule_task_closure(m, rep, 'R1', handler=True)
     B.rule_handler_plumbing(m, rep)
-    A.rule_loop(m, rep, 'R3loop')
